@@ -474,12 +474,12 @@ def r12f(ctx):
 
 
 def run(ctx):
-    r12a(ctx)
-    r12b(ctx)
-    r12c(ctx)
-    r12d(ctx)
-    r12e(ctx)
-    r12f(ctx)
+    ctx.guard(r12a)
+    ctx.guard(r12b)
+    ctx.guard(r12c)
+    ctx.guard(r12d)
+    ctx.guard(r12e)
+    ctx.guard(r12f)
 
 
 SELFTEST = {
